@@ -173,6 +173,9 @@ def corrupt(lexemes, starts, tape, n, late=False):
             if idx:
                 k = idx[tape.choose(len(idx), "which-typedef")]
                 lex[k + 1] = lex[k + 1] + "Missing"
+                if pristine[0]:
+                    # a typedef of a template that is declared nowhere: a misspelt name, invalid by construction
+                    must_reject = True
             else:
                 kind = "noop"
         elif kind == "drop-default":
